@@ -17,6 +17,7 @@ import KafkaVerif.Spec.Crc
 import KafkaVerif.Model.ReaderLoopLTS
 import KafkaVerif.Model.PullReader
 import KafkaVerif.Model.ReaderWorld
+import KafkaVerif.Model.ByteReader
 
 namespace KV.OracleC02
 open KV KV.C02
@@ -167,6 +168,29 @@ def tokCfg : TokCfg :=
     dec := fun _ _ => none,
     dg2 := fun fts r => digestOf r.key r.value (fts + r.tsDelta) r.headers,
     dg1 := fun m => digestOf m.key m.value (if m.magic = 0 then -1 else m.ts) [] }
+
+/-- the byte-level Go reads (Model/ByteReader.lean: readVarInt / readInt8 / runFunc / readMessageHeader with the
+`remain` accounting) walking a message set of uncompressed v2 batches: the 61 header bytes, then `count` records, each
+with `remain` = what is left of the whole set; errShortRead ends the walk like it ends the batch -/
+def brWalk : Nat → Option (H2 × Nat) → Bytes → List Tok
+  | 0, _, _ => []
+  | fuel + 1, st, bs =>
+    if bs.isEmpty then []
+    else match st with
+      | none =>
+        if bs.length < 61 then [.cut]
+        else match readH2 bs with
+          | none => [.cut]
+          | some (h, rest) =>
+            Tok.h2 h.base h.lod h.count.toNat (h.attrs % 8 != 0) h.plen ::
+              brWalk fuel (if h.count.toNat = 0 then none else some (h, h.count.toNat)) rest
+      | some (h, k) =>
+        match BR.readRecordV2 ⟨bs, bs.length⟩ with
+        | .error _ => [.cut]
+        | .ok (v, r') =>
+          Tok.r2 v.offDelta (digestOf (some v.key) (some v.value) (h.firstTs + v.tsDelta) (v.headers.map fun x => ⟨x.1, some x.2⟩))
+              v.consumed.toNat ::
+            brWalk fuel (if k ≤ 1 then none else some (h, k - 1)) r'.bs
 
 /-! ### op `rtrace`: replay of the RL.* hook events of one fetcher through the loop LTS (Model/ReaderLoopLTS.lean) -/
 
@@ -513,7 +537,11 @@ def step (line : String) : String :=
         | some bytes, some items =>
           let expected := truncate (allTokens items) bytes.length
           let actual := tokenize tokCfg (bytes.length + 1) .hdr bytes
-          if actual == expected then answer "same" true
+          let plainV2 := items.all fun it => match it with | .b2 _ _ false _ _ => true | _ => false
+          let go := brWalk (bytes.length + 1) none bytes
+          if plainV2 && go != expected then
+            answer s!"go-bytes-diff:{repr (go.zip expected |>.find? (fun p => p.1 != p.2))}" false
+          else if actual == expected then answer "same" true
           else answer s!"diff:{repr (actual.zip expected |>.find? (fun p => p.1 != p.2))}" false
         | _, _ => "bad-op"
       else if op == "reader" || op == "legacy-reader" then
